@@ -180,9 +180,12 @@ call_out ()
 
   while (call_out_time < current_time)
     {
-      /* we increment at the end in case we are interrupted by errors,
-         but we need to use call_out_time + 1 here. */
+      /* Advance call_out_time before running the callbacks of this second:
+         errors are caught below, so the sweep is never interrupted, and
+         new_call_out()/time_left() called from a callback must see this
+         slot as already visited. */
       tm = (call_out_time + 1) & (CALLOUT_CYCLE_SIZE - 1);
+      call_out_time++;
       if (call_list[tm] && --call_list[tm]->delta == 0)
         do
           {
@@ -258,7 +261,6 @@ call_out ()
               }
           }
         while (call_list[tm] && call_list[tm]->delta == 0);
-      call_out_time++;
     }
 
   pop_context (&econ);
